@@ -2,3 +2,11 @@ claim("C03", "differential testing against a reference lexer: bounded-exhaustive
       "Every string up to length 5 (quick) / 6 (thorough) over a 20-symbol alphabet, every block-string body up to length 7/9 and every quoted-string body up to length 6 over small alphabets are lexed by the library and by an independent transcription of the October 2021 lexical grammar and compared token by token (kind, extent, decoded value, point of failure); random long inputs and a metamorphic ignored-text relation cover what enumeration cannot. Exhaustive within the stated bounds, search beyond.",
       "Trusted: harness/ref/lexer.go (self-tested against lexer/lexer_test.yml), rapid, the Go toolchain. Three recorded deviations are modelled as switchable relaxations of the reference (known-findings.txt).",
       "6/C03")
+claim("C05", "differential testing against a reference recogniser/tree builder: bounded-exhaustive token sequences + generated trees + token mutants",
+      "Every lexeme sequence up to length 5 (quick) / 6 (thorough) over an 18-lexeme alphabet, extended by one lexeme where the prefix is viable, is parsed by the library and by an independent recursive-descent transcription of the executable grammar; verdicts must agree and accepted trees must be equal. Generated trees are rendered with three ignored-token policies and must be read back identically; single-lexeme mutants and a near-miss catalogue probe the boundary of the language.",
+      "Trusted: harness/ref lexer+parser (self-tested against the repository's parser examples). Six recorded deviations are modelled as grammar deltas (known-findings.txt).",
+      "6/C05")
+claim("C06", "differential testing against a reference recogniser/tree builder: bounded-exhaustive token sequences (full alphabet and per-definition sub-alphabets) + generated trees + token mutants",
+      "As C05 for the type-system grammar: a 31-lexeme alphabet to length 4/5 plus ten head+sub-alphabet families to length 5/6 (+1 on viable prefixes), generated type-system trees rendered three ways, mutants, near misses, and the built-in flag for both source kinds.",
+      "Trusted: harness/ref lexer+parser. Recorded deviations are modelled as grammar deltas (known-findings.txt).",
+      "6/C06")
